@@ -89,10 +89,13 @@ class Lexer:
         """
         \\b\\d+(\\.?\\d+)?\\b
         """
-        if '.' in t.value:
-            t.value = float(t.value)
-        else:
-            t.value = int(t.value)
+        try:
+            if '.' in t.value:
+                t.value = float(t.value)
+            else:
+                t.value = int(t.value)
+        except ValueError:
+            raise exceptions.YaqlLexicalException(t.value, t.lexpos)
         return t
 
     @staticmethod
